@@ -289,6 +289,9 @@ def same_source_two_roles(stmts) -> bool:
             for x in e[1]:
                 out |= sources(x, depth + 1) if x[0] in ("var", "blit") else set()
             return out
+        if t == "bin" and e[1] == "+" and depth < 6:
+            # a sum of simple same-type sources may be a wire merge
+            return sources(e[2], depth + 1) | sources(e[3], depth + 1)
         return set()
 
     def walk(e) -> bool:
